@@ -470,7 +470,22 @@ def tilt_lemmas():
         if ok:
             # Tilt stores (x, y) swapped: self.x = y angle, self.y = x angle
             ctx.oblige('C04::Wavefront.tilt.angles', z3.And(S.z(S.eq(ts[0].attrs['y'], rx)), S.z(S.eq(ts[0].attrs['x'], ry))))
-    return [('C04::Tilt.shift', tilt_shift_translation), ('C04::DispersiveTilt.first_order', dispersive_first_order),
+    def arc_length_is_signed(ctx):
+        """DispersiveTilt._arc_len(f, a, b) is the quadrature of f from a to b with the limits in THAT order (a
+        signed arc length: negative distances along the trace must stay negative for the inversion used with
+        higher-order traces); scipy.integrate.quad abstract."""
+        cls = ctx.world.repo.klass('lentil.plane.DispersiveTilt')
+        a, b = ctx.fresh_real('a'), ctx.fresh_real('b')
+        f = cls.find(ctx.world.repo, '_trace_dist_func')
+        res = ctx.world.interp.call_function(ctx, cls.find(ctx.world.repo, '_arc_len'), [f, a, b], {})
+        calls = ctx.__dict__.get('ghost_quad_calls', [])
+        ctx.oblige('C04::DispersiveTilt._arc_len.one_quadrature', len(calls) == 1)
+        if len(calls) == 1:
+            ctx.oblige('C04::DispersiveTilt._arc_len.limits_in_the_given_order',
+                       S.and_(S.eq(calls[0]['a'], a), S.eq(calls[0]['b'], b), S.eq(res, calls[0]['value'])))
+            ctx.oblige('C04::DispersiveTilt._arc_len.integrand_is_the_one_given', calls[0]['func'] is f)
+
+    return [('C04::DispersiveTilt._arc_len', arc_length_is_signed), ('C04::Tilt.shift', tilt_shift_translation), ('C04::DispersiveTilt.first_order', dispersive_first_order),
             ('C04::Field.shift.order', order_independent), ('C04::ramp_equals_metadata', ramp_equals_metadata),
             ('C04::Wavefront(tilt=)', wavefront_tilt_argument)]
 
